@@ -154,6 +154,7 @@ impl Relaxation for RecModel<'_> {
                 p.stats.merges += 1;
                 if input.len() < 2 { let m = format!("merge over {} state(s)", input.len()); alarm12(&mut p, m); }
                 if let Some(s) = input.iter().find(|s| !p.layer_states.contains(s)) { let m = format!("merge over state {:?} which is not in the current layer", s); alarm12(&mut p, m); }
+                if p.layer_states.contains(&res) && !input.contains(&res) { p.stats.recycled_candidates += 1; }
                 if p.log_arcs { p.merge_log.push((input.clone(), res)); }
                 p.last_merge = Some((input, res));
             }
